@@ -1364,7 +1364,38 @@ def make_machine(world_cls, checks, cfg_strategy, rule_weights=None):
                     op = d(gen.follow_op())
                     op["pool"] = d(st.sampled_from(["exec", "exec", "any"]))
                     items.append(op)
+            if d(st.integers(0, 3)) == 0:
+                # the transaction is flushed explicitly and then used again for follow-up requests on resting orders
+                items.append({"op": "execute"})
+                for _ in range(d(st.integers(1, 3))):
+                    op = d(gen.follow_op())
+                    op["pool"] = "exec"
+                    items.append(op)
             self._do({"_": "txn", "si": d(st.integers(0, self.ns - 1)), "items": items, "raise_through": d(st.booleans())})
+
+        @precondition(lambda self: rw.get("replace_through", 0) > 0)
+        @rule(data=st.data())
+        def replace_through(self, data):
+            """directed: an order rests behind a known book and is replaced to a price THROUGH the best price - the
+            replacement fills on arrival, or (best-price execution off) its placement is refused after the cancel leg
+            succeeded: the replaced order stays complete either way"""
+            if not self.w:
+                return
+            d = data.draw
+            si = d(st.integers(0, self.ns - 1))
+            r = d(st.integers(0, self.nr - 1))
+            mid = self.mids[r]
+            side = d(st.sampled_from(["BACK", "LAY"]))
+            book = {"r": r, "atb": [[mid - 1, 50.0], [mid - 3, 20.0]], "atl": [[mid + 1, 50.0], [mid + 3, 20.0]]}
+            self._do({"_": "book", "dt": 1000, "rc": [book]})
+            self.books[r] = (book["atb"], book["atl"])
+            rest = min(self.nt - 1, mid + 6) if side == "BACK" else max(0, mid - 6)
+            self._do({"_": "req", "op": "place", "si": si, "r": r, "side": side, "type": "LIMIT", "tick": rest, "size": d(st.sampled_from([2.0, 30.0, 80.0])),
+                      "pers": d(st.sampled_from(["LAPSE", "PERSIST"])), "trade": "new"})
+            self._do({"_": "book", "dt": 1000, "rc": []})
+            self._do({"_": "req", "op": "replace", "si": si, "o": -1, "pool": "exec", "ticks": (-10 if side == "BACK" else 10)})
+            self._do({"_": "book", "dt": 1000, "rc": []})
+            self._do({"_": "book", "dt": 1000, "rc": [{"r": r, "trd": [[rest, d(st.sampled_from([4.0, 100.0]))]]}]})
 
         @precondition(lambda self: rw.get("cancel_batch", 0) > 0)
         @rule(data=st.data())
